@@ -6,6 +6,7 @@
 //! strategy. Everything runs in-process; library panics are caught with `engine::guard`.
 mod blast;
 mod content;
+mod fuzzb;
 mod oracle;
 mod plan;
 
@@ -113,6 +114,22 @@ fn main() {
         check.finish();
     }
 
+    // seed corpus of the libFuzzer target (used by hand; the campaigns get theirs from fuzzb::run)
+    if let Some(i) = args.rest.iter().position(|a| a == "--dump-fuzz-seeds") {
+        let n = fuzzb::dump_seeds(std::path::Path::new(&args.rest[i + 1]));
+        println!("{n} seed files");
+        std::process::exit(0);
+    }
+    // judge one libFuzzer artifact by hand: --artifact <file>
+    if let Some(i) = args.rest.iter().position(|a| a == "--artifact") {
+        let b = std::fs::read(&args.rest[i + 1]).expect("artifact");
+        let case = fuzzb::case_of(&b).expect("empty artifact");
+        let d = case.content.build();
+        let (info, r) = evaluate(&case, &d);
+        println!("{} {:?} {:?}", method_name(case.method), info, r);
+        std::process::exit(0);
+    }
+
     // debugging aid: --one <method> <kind> <len> <seed> <p>
     if let Some(i) = args.rest.iter().position(|a| a == "--one") {
         let a = &args.rest[i + 1..];
@@ -170,7 +187,17 @@ fn main() {
     if verbose {
         eprintln!("random done {:.1}s", t0.elapsed().as_secs_f64());
     }
-    // 4. self-test of the generator: essential classes must be populated
+    // 4. coverage-guided campaigns with the same oracle inside the libFuzzer target
+    if fuzzb::enabled() {
+        fuzzb::run(&check, &run_case);
+        if verbose {
+            eprintln!("fuzz done {:.1}s", t0.elapsed().as_secs_f64());
+        }
+    } else {
+        check.bump("fuzz:codec:skipped", 1);
+    }
+
+    // 5. self-test of the generator: essential classes must be populated
     for sel in ["zlib", "bzip2", "lzma", "sparse", "pkware"] {
         for oc in ["shrunk", "raw"] {
             if check.counter(&format!("outcome:{sel}:{oc}")) == 0 {
